@@ -127,6 +127,14 @@ def judge_model(spec, backend):
         if n == "SolverError":
             return [], "solver-error", 0
         return [("model:solve-raised:%s:%s" % (backend, n), str(r["exc"])[:200])], "raised", 0
+    return validate_posed(pep, backend)
+
+
+def validate_posed(pep, backend):
+    """Translation validation of an already solved problem whose wrapper is a recording subclass."""
+    from PEPit.point import Point
+    from PEPit.expression import Expression
+    probs = []
     w = pep.wrapper
     nP, nF = Point.counter, Expression.counter
     calls = getattr(w, "rec_calls", None)
@@ -261,6 +269,9 @@ def shards(tier):
         out += [dict(kind="shapes", keys="9", first=[a, b]) for a in COEFS for b in COEFS]
     n = len(model_cases(tier))
     out += [dict(kind="models", lo=lo, hi=min(n, lo + CHUNK)) for lo in range(0, n, CHUNK)]
+    from mc.checks.c01 import example_cases
+    ne = len(example_cases(tier))
+    out += [dict(kind="examples", lo=lo, hi=min(ne, lo + 8)) for lo in range(0, ne, 8)]
     return out
 
 
@@ -271,6 +282,23 @@ def run_shard(shard, tier):
         return dict(evaluations=ev, states=ev, transitions=2 * ev, nontrivial=nontriv, outcomes={"shape": ev},
                     violations=viol, samples=[dict(kind="shape", keys=keys, coefs=[shard["first"][0], 1, -2] + [None] * (len(keys) - 3))],
                     extra={"shapes": ev})
+    if shard["kind"] == "examples":
+        from mc.checks.c01 import example_cases
+        from mc import solved
+        ev = nontriv = 0
+        outcomes, viol, samples = {}, [], []
+        for name, kw, be in example_cases(tier)[shard["lo"]:shard["hi"]]:
+            r = solved.run_example_as_model(name, kw, be)
+            ev += 1
+            nontriv += r["outcome"] == "judged"
+            oc = "example:%s:%s" % (be, r["outcome"])
+            outcomes[oc] = outcomes.get(oc, 0) + 1
+            for key, msg in r["c05"]:
+                viol.append(dict(key=key, msg=msg, case=dict(kind="example", example=name, kwargs=kw, backend=be)))
+            if not samples:
+                samples.append(dict(kind="example", example=name, kwargs=kw, backend=be))
+        return dict(evaluations=ev, states=ev, transitions=max(ev, 1), nontrivial=int(nontriv), outcomes=outcomes, violations=viol,
+                    samples=samples, extra={"examples_validated": int(nontriv)})
     cases = model_cases(tier)[shard["lo"]:shard["hi"]]
     ev = nontriv = rows = 0
     outcomes, viol, samples = {}, [], []
@@ -295,6 +323,10 @@ def replay(case):
     if case["kind"] == "shape-leaf":
         w = ShapeWorld()
         return [dict(key=k + ":leaf", msg=m, case=case) for leaf in w.e for k, m in w.judge_expr(leaf)]
+    if case["kind"] == "example":
+        from mc import solved
+        r = solved.run_example_as_model(case["example"], case["kwargs"], case["backend"])
+        return [dict(key=k, msg=m, case=case) for k, m in r["c05"]]
     probs, _, _ = judge_model(case["spec"], case["backend"])
     return [dict(key=k, msg=m, case=case) for k, m in probs]
 
@@ -307,7 +339,8 @@ def meta(tier):
              "dense and the sparse encoder, compared exactly with the reference functional; (models) every grammar model "
              "x {cvxpy, MOSEK stand-in}: the solver-side problem is read back (cvxpy: basis evaluation of every "
              "constraint expression; MOSEK: recorded task data) and compared call by call with the declared objects "
-             "(multiset, sense, affine data, LMI coupling, objective). transitions = solver rows validated." % (nk, nk),
+             "(multiset, sense, affine data, LMI coupling, objective); the same validation for every shipped example with a closed "
+             "form, solved as written on both back-ends. transitions = solver rows validated." % (nk, nk),
         bounds=dict(shape_keys=nk, coefficients=[str(c) for c in COEFS], model_cases=len(model_cases(tier))),
         exhaustive=True,
         assumptions=["cvxpy constraint expressions are affine (checked with is_affine), hence determined by their values "
